@@ -132,3 +132,42 @@ func val(key, m string, v int) int {
 	}
 	return 2
 }
+
+// A typed object's DATA fields win over the builtin members every object has (`to_string`, `keys`, `to_json`,
+// `to_json_indent`): the analyzer types `o.keys` as the field, both runtimes must hand out the field.
+func TestTableObjectFieldNames(t *testing.T) {
+	pk.SkipIfReplay(t)
+	col := pk.NewCollector()
+	k := 0
+	for _, name := range []string{"to_string", "keys", "to_json", "to_json_indent", "len", "get", "a"} {
+		for _, form := range []string{"cast", "literal", "annotated"} {
+			k++
+			if !pk.Mine(k) {
+				continue
+			}
+			var body string
+			switch form {
+			case "cast":
+				body = fmt.Sprintf("let o = \"{\\\"%s\\\": 7, \\\"b\\\": 8}\".parse_json() as { %s: int, b: int };\n    println(o.%s + 1, o.b, o[\"%s\"]);\n    o.%s = 20;\n    println(o.%s);", name, name, name, name, name, name)
+			case "literal":
+				body = fmt.Sprintf("let o = new { %s: 7, b: 8 };\n    println(o.%s + 1, o.b, o[\"%s\"]);\n    o.%s += 13;\n    println(o.%s);", name, name, name, name, name)
+			default:
+				body = fmt.Sprintf("let o: { %s: int, b: int } = \"{\\\"%s\\\": 7, \\\"b\\\": 8}\".parse_json();\n    println(o.%s + 1, o.b, o[\"%s\"]);\n    o.%s = 20;\n    println(o.%s);", name, name, name, name, name, name)
+			}
+			text := "fn main() {\n    " + body + "\n}\n"
+			pk.Eval()
+			resp := px.Pool().Exec(&sb.Request{Op: "analyze", Modules: map[string]string{"main": text}, Entry: "main"})
+			if resp == nil || !resp.Accepted {
+				pk.Class("object-field-name-refused-by-analyzer:" + name) // e.g. member names are refused in literals
+				continue
+			}
+			exp := &px.Exp{Outcome: hs.Outcome{Class: "ok"}, Writes: []string{"8 8 7\n", "20\n"}}
+			c := px.ProgCase{Modules: map[string]string{"main": text}, Entry: "main", Limits: sb.DefaultLimits(),
+				Note: "object with a data field named " + name + " (" + form + ")", Expect: exp}
+			pk.NonTrivial(c.Note, map[string]any{"field": name, "form": form})
+			col.Report(c, checkMutation(c))
+		}
+	}
+	pk.Exhaustive("table-object-field-names")
+	col.Done(t)
+}
